@@ -227,8 +227,10 @@ def impl_many(payloads, configs, timeout):
 
 # ---- running ----------------------------------------------------------------------
 
-def run_cases(ctx, cases, seeds, tag):
-    """run every case under every (build, seed); returns (obs0, refs, fails, seed_diffs)"""
+def run_cases(ctx, cases, seeds, tag, keys=("obs", "ref", "fail")):
+    """run every case under every (build, seed); returns (obs0, refs, fails, seed_diffs);
+    keys = ("hobs", "href", "hfail") reads the results of the histories instead"""
+    KO, KR, KF = keys
     nchunk = max(1, min(vlib.NPROC, (len(cases) + 3) // 4))
     size = (len(cases) + nchunk - 1) // nchunk
     parts = list(vlib.chunks(cases, size))
@@ -238,12 +240,12 @@ def run_cases(ctx, cases, seeds, tag):
     base = 0
     for pi, p in enumerate(parts):
         r0 = res[(pi, "compiled", seeds[0])]
-        obs0 += r0["obs"]; refs += r0["ref"]; fails += r0["fail"]
+        obs0 += r0[KO]; refs += r0[KR]; fails += r0[KF]
         for (b, k) in configs[1:]:
             rk = res[(pi, b, k)]
-            if rk["obs"] != r0["obs"]:
+            if rk[KO] != r0[KO]:
                 for ci in range(len(p)):
-                    for qi, (x, y) in enumerate(zip(r0["obs"][ci], rk["obs"][ci])):
+                    for qi, (x, y) in enumerate(zip(r0[KO][ci], rk[KO][ci])):
                         if x != y:
                             diffs.append((base + ci, qi, (b, k), x, y))
                             break
@@ -320,6 +322,150 @@ def pair_cases(ctx, tables, alphas, singles, obs1, maxlen, pairs_mode):
     return out
 
 
+# ---- histories on one table object ---------------------------------------------------
+
+HIST_SELS = [["str", "a"], ["str", "a.*"], ["str", ".*"], ["str", "A|c"], ["str", "c"], ["str", "ab"], ["str", "a.*::0"],
+             ["str", "a.*::-1"], ["str", "a::1"], ["str", "c::-1"], ["str", ".*::1"], ["str", "a.*::0>>1"], ["str", "[ac]"],
+             ["names", ["a"]], ["names", ["c", "a"]], ["span", "a", "c"], ["span", "a::1", None], ["span", None, "ab"],
+             ["range", 1, None, "x"], ["none"]]
+
+
+def gen_history(rng, t, alpha, nsel, rounds):
+    """choose a few selectors (mostly strings), then alternate: evaluate all of
+    them (single and as tuples), edit the index column, evaluate the SAME ones again"""
+    n = len(t["idx"])
+    S = []
+    for _ in range(nsel):
+        S.append(rng.choice(HIST_SELS) if rng.random() < 0.75 else rand_sel(rng, n, alpha))
+    qs = [{"one": s} for s in S]
+    if len(S) >= 2:
+        qs.append({"tup": [S[0], S[1]]})
+    if rng.random() < 0.5:
+        qs.append({"tup": [S[-1]]})
+    cur = list(t["idx"])
+    hist = [{"sel": q} for q in qs]
+    for _ in range(rounds):
+        z = rng.random()
+        v = rng.choice(alpha)
+        if n and z < 0.45:
+            i = rng.randint(-n, n - 1) if rng.random() < 0.95 else n
+            hist.append({"setcell": [i, v]})
+            if -n <= i < n:
+                cur[i] = v
+        elif n and z < 0.85:
+            nm = rng.choice(cur + (["zz"] if rng.random() < 0.05 else []))
+            m = cur.count(nm)
+            cnt = rng.choice([None, None, 0, -1, rng.randint(0, max(m - 1, 0)), m])
+            off = rng.choice([0, 0, 0, 1, -1])
+            hist.append({"setcellname": [mk_str(nm, cnt, off), v]})
+            ps = [k for k, x in enumerate(cur) if x == nm]
+            c = 0 if cnt is None else cnt
+            if c < 0:
+                c += len(ps)
+            if 0 <= c < len(ps) and -n <= ps[c] + off < n:
+                cur[ps[c] + off] = v
+        else:
+            cur = [rng.choice(alpha) for _ in range(n)]
+            hist.append({"setidx": [list(cur), rng.choice(["item", "attr"])]})
+        hist += [{"sel": q} for q in qs]
+    return hist
+
+
+def hist_cases(ctx, maxlen, nrand, per_table):
+    rng = ctx.rng
+    out = []
+    for t in small_tables(maxlen):
+        if not t["idx"]:
+            continue
+        for _ in range(per_table):
+            out.append(dict(t, queries=[], history=gen_history(rng, t, ALPHA, rng.randint(1, 3), rng.randint(1, 3))))
+    for _ in range(nrand):
+        t, al = rand_table(rng)
+        out.append(dict(t, queries=[], history=gen_history(rng, t, al, rng.randint(1, 4), rng.randint(1, 4))))
+    return out
+
+
+def emit_hist_file(cases, hobs):
+    N = vlib.Interner()
+    pats, names, items, ids, unrep = set(), set(), [], [], []
+    for i, (c, ob) in enumerate(zip(cases, hobs)):
+        ops, exps, ok = [], [], True
+        names.update(c["idx"])
+        for h, o in zip(c["history"], ob):
+            if "sel" in h:
+                q = h["sel"]
+                qs = f"(QOne {emit_sel(q['one'], N, pats)})" if "one" in q else f"(QTup {clist([emit_sel(x, N, pats) for x in q['tup']])})"
+                parts = [emit_res(o["rows"], cnat), emit_res(o["indices"], cz), emit_res(o["mask"], cbool)]
+                if any(p is None for p in parts):
+                    ok = False
+                    break
+                ops.append(f"HSel {qs}"); exps.append(f"HViews {parts[0]} {parts[1]} {parts[2]}")
+                continue
+            if "setcell" in h:
+                names.add(h["setcell"][1])
+                ops.append(f"HSetCell {cz(h['setcell'][0])} {cn(N(h['setcell'][1]))}")
+            elif "setcellname" in h:
+                nm, cnt, off = split_sel(h["setcellname"][0])
+                names.add(h["setcellname"][1])
+                ops.append(f"HSetCellName {cn(N(nm))} {copt(cnt, cz)} {cz(off)} {cn(N(h['setcellname'][1]))}")
+            else:
+                names.update(h["setidx"][0])
+                ops.append(f"HSetIdx {clist([cn(N(x)) for x in h['setidx'][0]])}")
+            if o["set"] == "ok":
+                exps.append("HDone")
+            elif ERRMAP.get(o["set"][1]):
+                exps.append(f"HFail {ERRMAP[o['set'][1]]}")
+            else:
+                ok = False
+                break
+        if not ok:
+            unrep.append(i)
+            continue
+        t = f"(mkST {clist([cn(N(x)) for x in c['idx']])} " + \
+            clist([f"({cn(N('col:' + k))}, {clist([cz(v) for v in vals])})" for k, vals in c["cols"]]) + ")"
+        items.append(f"({t},\n  {clist(ops)},\n  {clist(exps)})")
+        ids.append(i)
+    mt = []
+    for p in sorted(pats):
+        rx = re.compile(p, re.IGNORECASE)
+        mt.append(f"({cn(N(p))}, {clist([cn(N(x)) for x in sorted(names) if rx.fullmatch(x)])})")
+    text = ("From Coq Require Import List ZArith NArith.\nFrom XD Require Import model.Table model.TableSel run.RunTableSel.\n"
+            "Import ListNotations.\nDefinition mt : mtable := " + clist(mt) + ".\n"
+            "Definition cases : list hcase :=\n " + ";\n ".join(items).join(["[", "]"]) + ".\nEval vm_compute in (hmismatches mt cases).\n")
+    return text, ids, unrep
+
+
+def hist_mismatches(ctx, cases, hobs, tag):
+    per = max(1, min(80, (len(cases) + vlib.NPROC - 1) // vlib.NPROC))
+    groups = list(vlib.chunks(list(range(len(cases))), per))
+    texts, maps, mism = [], [], []
+    for g in groups:
+        text, ids, unrep = emit_hist_file([cases[i] for i in g], [hobs[i] for i in g])
+        texts.append(text); maps.append([g[k] for k in ids]); mism += [g[k] for k in unrep]
+    for (rc, so, se), ids in zip(vlib.coq_eval_files(ctx, texts, tag), maps):
+        lst = vlib.parse_nat_list(so) if rc == 0 else None
+        if lst is None:
+            raise vlib.InfraError(f"history case file evaluation failed: rc={rc} {se[-800:]} {so[-300:]}")
+        mism += [ids[k] for k in lst]
+    return sorted(set(mism))
+
+
+def shrink_history(case, seeds):
+    """drop history steps while the oracle still fails"""
+    def bad(c):
+        r = vlib.run_impl(RUNNER, {"cases": [c]}, hashseed=seeds[0])
+        return any(r["hfail"][0])
+    hist = list(case["history"])
+    i = 0
+    while i < len(hist):
+        cand = dict(case, history=hist[:i] + hist[i + 1:])
+        if cand["history"] and bad(cand):
+            hist = cand["history"]
+        else:
+            i += 1
+    return dict(case, history=hist)
+
+
 def first_failure(cases, fails):
     """smallest failing (table, query)"""
     best = None
@@ -346,7 +492,9 @@ def run(ctx):
                 f"{ctx.pick(12, 400)} random tables of 6..14 rows; tuples: "
                 + ctx.pick("40 random pairs + 6 triples per table", "all pairs of 37 representative forms per table up to length 4, 120 random pairs + 6 triples otherwise")
                 + f"; PYTHONHASHSEED {seeds[0]}..{seeds[-1]} (compiled) + pure build; non-trivial = a regex/span/range/name-list or tuple "
-                "query selecting at least one row; distinct by (table, query)")
+                "query selecting at least one row, or a history where a re-evaluated selector changes its rows after an edit; distinct by (table, query); "
+                "plus histories on ONE table object: 1-4 selectors (single and as tuples) evaluated, then 1-4 rounds of [edit the index "
+                "column: a cell by position / a cell by name::count<<off / the whole column; evaluate the SAME selectors again]")
     proof_ok = vlib.standard_proof_part(ctx, "props/C08.v", allowed_axioms=(), extra_targets=["run/RunTableSel.vo"])
     tables, alphas, singles = build_cases(ctx, maxlen, ctx.pick(12, 400), None)
     obs1, ref1, fail1, diff1 = run_cases(ctx, singles, seeds, "s")
@@ -355,10 +503,26 @@ def run(ctx):
     cases, obs, refs, fails = singles + pairs, obs1 + obs2, ref1 + ref2, fail1 + fail2
     diffs = diff1 + [(i + len(singles), q, k, x, y) for (i, q, k, x, y) in diff2]
     mism = model_mismatches(ctx, cases, obs, "c")
+    # histories on one table object: select / edit the index column / select the same again
+    hseeds = seeds[:ctx.pick(2, 4)]
+    hcases = hist_cases(ctx, ctx.pick(3, 4), ctx.pick(60, 1500), ctx.pick(3, 8))
+    hobs, href, hfail, hdiff = run_cases(ctx, hcases, hseeds, "h", keys=("hobs", "href", "hfail"))
+    hmism = hist_mismatches(ctx, hcases, hobs, "h")
+    nh = sum(len(c["history"]) for c in hcases)
+    changed = 0
+    for c, ob in zip(hcases, hobs):
+        seen = {}
+        for h, o in zip(c["history"], ob):
+            if "sel" in h:
+                k = json.dumps(h["sel"], sort_keys=True)
+                if k in seen and seen[k] != o["rows"] and o["rows"][0] == "ok":
+                    changed += 1
+                    ctx.nontrivial.add(json.dumps([c["idx"], c["history"]], sort_keys=True))
+                seen[k] = o["rows"]
 
     nq = sum(len(c["queries"]) for c in cases)
-    ctx.evaluations = nq * (len(seeds) + 1)
-    ctx.traces = nq
+    ctx.evaluations = nq * (len(seeds) + 1) + nh * (len(hseeds) + 1)
+    ctx.traces = nq + len(hcases)
     kinds, judged, errs = {}, 0, {}
     for c, ob, rf in zip(cases, obs, refs):
         for q, o, r in zip(c["queries"], ob, rf):
@@ -373,7 +537,9 @@ def run(ctx):
     ctx.cov["input_distribution"] = {"tables": len(tables), "queries": nq, "tuple_queries": sum(len(c["queries"]) for c in pairs),
                                      "selector_kinds": kinds, "judged_by_reference_selector": judged,
                                      "outside_domain_compared_to_model_only": nq - judged, "errors_observed": errs,
-                                     "hash_seeds": seeds, "builds": ["compiled", "pure"]}
+                                     "hash_seeds": seeds, "builds": ["compiled", "pure"],
+                                     "histories_on_one_table": len(hcases), "history_steps": nh,
+                                     "reselections_whose_result_changed_after_an_edit": changed}
     mid = len(singles) // 2
     ctx.samples = [{"table": cases[mid]["idx"], "query": cases[mid]["queries"][-1], "impl": obs[mid][-1], "reference": refs[mid][-1]},
                    {"table": cases[-1]["idx"], "query": cases[-1]["queries"][0], "impl": obs[-1][0], "reference": refs[-1][0]}]
@@ -383,7 +549,23 @@ def run(ctx):
                             "" if bad is None else str(bad[3])[:300]))
     ctx.obligations.append((f"hash seeds {seeds[0]}..{seeds[-1]} and both builds give identical results", not diffs, f"{len(diffs)} differing tables"))
 
-    if bad is not None:
+    hbad = first_failure([dict(c, queries=c["history"]) for c in hcases], hfail)
+    ctx.obligations.append(("correspondence: model = implementation on every history (selections interleaved with index-column edits on one table)",
+                            not hmism, f"{len(hmism)} mismatching histories"))
+    ctx.obligations.append(("oracle: after every edit of the index column the same selectors denote the rows of the CURRENT column",
+                            hbad is None and not hdiff, "" if hbad is None else str(hbad[3])[:300]))
+    if bad is None and hbad is not None:
+        _, ci, qi, f = hbad
+        small = shrink_history(dict(hcases[ci], history=hcases[ci]["history"][:qi + 1]), hseeds)
+        r = vlib.run_impl(RUNNER, {"cases": [small]}, hashseed=hseeds[0])
+        vlib.violation(ctx, {"kind": "oracle-history", "what": "after an edit of the index column a row selection does not denote the rows of the current column",
+                             "case": small, "impl": r["hobs"][0], "reference_rows": r["href"][0], "failures": r["hfail"][0],
+                             "hashseed": hseeds[0], "how_to_replay": "./check C08 --replay <this file>"})
+    elif bad is None and hdiff:
+        ci, qi, cfg, x, y = hdiff[0]
+        vlib.violation(ctx, {"kind": "seed", "what": "a history of selections and edits depends on the hash seed / build",
+                             "case": dict(hcases[ci], history=hcases[ci]["history"][:qi + 1]), "obs_a": x, "obs_b": y, "hashseed": cfg[1], "build": cfg[0]})
+    elif bad is not None:
         _, ci, qi, f = bad
         small = single_case(cases[ci], qi)
         vlib.violation(ctx, {"kind": "oracle", "what": "row selection differs from the documented selector semantics",
@@ -394,8 +576,11 @@ def run(ctx):
         vlib.violation(ctx, {"kind": "seed", "what": "row selection depends on the hash seed / build",
                              "case": single_case(cases[ci], qi), "config_a": ["compiled", seeds[0]], "obs_a": x,
                              "config_b": list(cfg), "obs_b": y, "hashseed": cfg[1], "build": cfg[0]})
-    elif mism or not proof_ok:
+    elif mism or hmism or not proof_ok:
         what = list(getattr(ctx, "broken", []))
+        if hmism:
+            i = hmism[0]
+            what.append(f"correspondence of histories broke on {len(hmism)} cases, first: {json.dumps(hcases[i])} impl={json.dumps(hobs[i])}")
         if mism:
             i = mism[0]
             what.append(f"correspondence model/TableSel.v vs xdeps.table broke on {len(mism)} tables, first: idx={cases[i]['idx']} "
@@ -435,11 +620,13 @@ def replay(ctx, data):
         return 1
     seeds = [0, int(data.get("hashseed", 0))]
     outs = [vlib.run_impl(RUNNER, {"cases": [case]}, build=data.get("build", "compiled") if k else "compiled", hashseed=k) for k in seeds]
-    print(json.dumps({"impl": outs[0]["obs"][0], "reference": outs[0]["ref"][0], "failures": outs[0]["fail"][0]}, indent=1))
-    if any(outs[0]["fail"][0]) or any(outs[1]["fail"][0]):
-        print("VIOLATION property=C08 replay=(given) :", [f for f in outs[0]["fail"][0] + outs[1]["fail"][0] if f][0])
+    print(json.dumps({"impl": outs[0]["obs"][0], "reference": outs[0]["ref"][0], "failures": outs[0]["fail"][0],
+                      "history_impl": outs[0]["hobs"][0], "history_failures": outs[0]["hfail"][0]}, indent=1))
+    allf = [f for o in outs for f in o["fail"][0] + o["hfail"][0] if f]
+    if allf:
+        print("VIOLATION property=C08 replay=(given) :", allf[0])
         return 1
-    if outs[0]["obs"] != outs[1]["obs"]:
+    if outs[0]["obs"] != outs[1]["obs"] or outs[0]["hobs"] != outs[1]["hobs"]:
         print(f"VIOLATION property=C08 replay=(given) : result differs between hash seeds {seeds}")
         return 1
     print("replay: implementation agrees with the reference selector on this case")
